@@ -94,7 +94,20 @@ func ruleBootstrapTxn(c *Ctx) {
 		for _, b := range boot.Blocks {
 			for _, ins := range b.Instrs {
 				sl, ok := ins.(*ssa.Slice)
-				if !ok || (sl.Low == nil && sl.High == nil) {
+				if !ok {
+					continue
+				}
+				lowOK := sl.Low == nil
+				if z, isC := constInt(sl.Low); sl.Low != nil && isC && z == 0 {
+					lowOK = true
+				}
+				highOK := sl.High == nil
+				if hc, isCall := sl.High.(*ssa.Call); isCall {
+					if b, isB := hc.Call.Value.(*ssa.Builtin); isB && b.Name() == "len" && len(hc.Call.Args) == 1 && hc.Call.Args[0] == sl.X {
+						highOK = true // ops[:len(ops)] (also the full-slice form): every queued write is kept
+					}
+				}
+				if lowOK && highOK {
 					continue
 				}
 				t, isSl := sl.Type().Underlying().(*types.Slice)
